@@ -182,7 +182,95 @@ def follow(root, path):
     return n
 
 
-def check_crossover(C, n, selected, seed):
+def forest_issues(trees):
+    """-> reason or None: two slots holding one tree object / sharing nodes"""
+    for i in range(len(trees)):
+        for j in range(i + 1, len(trees)):
+            if trees[i] is trees[j]:
+                return f'slots {i} and {j} hold the same tree object'
+            if set(gpops.node_ids(trees[i])) & set(gpops.node_ids(trees[j])):
+                return f'slots {i} and {j} share nodes'
+    return None
+
+
+def check_mutation(C, drv, n, selected, seed, single=()):
+    """`GP._mutation` on a whole population with a scripted tournament outcome: result compared with the loop the translator
+    read (`w.mutation`: points drawn and trees grown are tapped and handed to the model in call order) and with the definition
+    (unselected slots keep their tree object, the forest stays disjoint, the number of trees stays)"""
+    L = lib.load()
+    np = L['np']
+    import random as _r
+    import opytimizer.math.general as g
+    np.random.seed(seed)
+    sp = L['TreeSpace'](n_trees=n, n_terminals=2, n_variables=1, n_iterations=1, min_depth=1, max_depth=3,
+                        functions=['SUM', 'MUL', 'ABS', 'COS'], lower_bound=[0.0], upper_bound=[1.0])
+    for i in single:
+        # single-node individuals: re-created by `space.grow` instead of being handed to `_mutate`
+        sp.trees[i] = L['Node'](name=0, type='TERMINAL', value=np.array(sp.terminals[0].position, copy=True))
+    old = list(sp.trees)
+    enc0 = [T.enc_tree(t, base=1000 * i) for i, t in enumerate(old)]
+    k = len(selected)
+    gp2 = L['kinds']['GP'](hyperparams={'p_mutation': min(1.0, (k + 0.5) / n), 'prunning_ratio': 0.0})
+    rp = dict(how='mutation', n=n, selected=list(selected), seed=seed, single=list(single))
+    orig_t = g.tournament_selection
+    g.tournament_selection = lambda fit, kk: list(selected)[:kk]
+    sc = gpops.Script(_r.Random(seed)).install()
+    grown, points, depth = [], [], [0]
+    orig_grow, orig_mut = sp.grow, gp2._mutate
+
+    def grow_tap(*a, **kw):
+        depth[0] += 1
+        try:
+            t = orig_grow(*a, **kw)
+        finally:
+            depth[0] -= 1
+        if depth[0] == 0:
+            grown.append(T.enc_tree(t, base=500000 + 1000 * len(grown)))
+        return t
+
+    def mut_tap(*a, **kw):
+        at = len(sc.log)
+        r_ = orig_mut(*a, **kw)
+        points.append(sc.log[at][2] if len(sc.log) > at else None)
+        return r_
+    sp.grow = grow_tap
+    gp2._mutate = mut_tap
+    try:
+        gp2._mutation(sp)
+    except Exception as ex:
+        C.issue('mutation-raised', 'oracle', rp, error=type(ex).__name__ + ': ' + str(ex)[:80])
+        return
+    finally:
+        sc.remove()
+        g.tournament_selection = orig_t
+        try:
+            del sp.grow
+            del gp2._mutate
+        except AttributeError:
+            pass
+    used = list(selected)[:int(n * gp2.p_mutation)]
+    if len(sp.trees) != n:
+        C.issue('mutation-changed-population-size', 'oracle', rp, trees=len(sp.trees))
+    for i in range(n):
+        if i not in used and sp.trees[i] is not old[i]:
+            C.issue('mutation-touched-unselected-slot', 'oracle', rp, slot=i)
+        if i in used and sp.trees[i] is old[i]:
+            C.issue('mutation-left-selected-slot', 'oracle', rp, slot=i)
+    why = forest_issues(sp.trees)
+    if why:
+        C.issue('mutation-forest-not-disjoint', 'oracle', rp, why=why)
+    if any(set(gpops.node_ids(sp.trees[i])) & set(gpops.node_ids(o)) for i in used for o in old):
+        C.issue('mutant-not-new', 'oracle', rp)
+    if None not in points and None not in grown and None not in enc0:
+        out = drv.ask(f"w.mutation {';'.join(enc0)} 10000000 {common.enc_ints(used)} {common.enc_ints(points)} {';'.join(grown) if grown else '-'}")
+        real = ';'.join(T.canon(t) for t in sp.trees)
+        if out != real:
+            C.issue('translated-mutation-mismatch', 'correspondence', rp, model=out[:300], real=real[:300])
+        C.extra['translated_population_loops'] = C.extra.get('translated_population_loops', 0) + 1
+    C.case(key=('mutation', n, tuple(selected), seed), nontrivial=len(used) >= 2, kind='mutation-population')
+
+
+def check_crossover(C, n, selected, seed, drv=None, deep=False):
     """`GP._crossover` on a whole population with a scripted tournament outcome: the selected individuals are crossed in
     consecutive disjoint pairs — the two slots of a pair receive the two offspring of that pair (the nodes of the pair
     are conserved inside the pair), every other slot keeps its tree object"""
@@ -193,12 +281,23 @@ def check_crossover(C, n, selected, seed):
     np.random.seed(seed)
     sp = L['TreeSpace'](n_trees=n, n_terminals=2, n_variables=1, n_iterations=1, min_depth=2, max_depth=4,
                         functions=['SUM', 'MUL', 'ABS', 'COS'], lower_bound=[0.0], upper_bound=[1.0])
+    if deep:
+        # a population as bloat leaves it after a long run: trees 14 to 33 levels deep
+        def _comb(n_, left):
+            s_ = 'L'
+            for q_ in range(n_):
+                s_ = ('B', s_, 'L') if (left or q_ % 2) else ('B', 'L', s_)
+            return s_
+        terms = [t_.position for t_ in sp.terminals]
+        for i in range(n):
+            sp.trees[i] = T.build(_comb(14 + (7 * i) % 20, i % 2 == 0), terminals=terms, term_ids=[0, 1])
     # the (name, type) labels of a pair's nodes are conserved by an exchange of subtrees inside the pair
     before = [sorted((str(x.name), x.type) for x in T.walk(t)[0]) for t in sp.trees]
     old = list(sp.trees)
+    enc0 = [T.enc_tree(t, base=1000 * i) for i, t in enumerate(old)]
     k = len(selected)
     gp2 = L['kinds']['GP'](hyperparams={'p_crossover': (k - 0.5) / n if k % 2 == 0 else (k - 1.5) / n, 'prunning_ratio': 0.0})
-    rp = dict(how='crossover', n=n, selected=list(selected), seed=seed)
+    rp = dict(how='crossover', n=n, selected=list(selected), seed=seed, deep=deep)
     orig = g.tournament_selection
     g.tournament_selection = lambda fit, kk: list(selected)[:kk] if kk <= len(selected) else list(selected)
     sc = gpops.Script(_r.Random(seed)).install()
@@ -221,7 +320,24 @@ def check_crossover(C, n, selected, seed):
             if sorted(after[a] + after[b]) != sorted(before[a] + before[b]):
                 C.issue('crossover-pair-not-conserved', 'oracle', rp, pair=[a, b])
                 break
-    C.case(key=('crossover', n, tuple(selected), seed), nontrivial=len(pairs) >= 2, kind='crossover-population')
+    if len(sp.trees) != n:
+        C.issue('crossover-changed-population-size', 'oracle', rp, trees=len(sp.trees))
+    why = forest_issues(sp.trees)
+    if why:
+        C.issue('crossover-forest-not-disjoint', 'oracle', rp, why=why)
+    if drv is not None and None not in enc0:
+        # the loop as the translator read it, on the same population, tournament outcome and points (two per crossed pair,
+        # in call order)
+        pts = [d_ for _, _, d_ in sc.log]
+        draws = ';'.join(f'{pts[q]},{pts[q + 1]}' for q in range(0, len(pts) - 1, 2)) or '-'
+        kk = int(n * gp2.p_crossover)
+        kk += kk % 2
+        out = drv.ask(f"w.crossover {';'.join(enc0)} 10000000 {common.enc_ints(list(selected)[:kk]) if kk <= len(selected) else common.enc_ints(list(selected))} {draws}")
+        real = ';'.join(T.canon(t) for t in sp.trees)
+        if out != real:
+            C.issue('translated-crossover-mismatch', 'correspondence', rp, model=out[:300], real=real[:300])
+        C.extra['translated_population_loops'] = C.extra.get('translated_population_loops', 0) + 1
+    C.case(key=('crossover', n, tuple(selected), seed, deep), nontrivial=len(pairs) >= 2, kind='crossover-population' + ('-deep' if deep else ''))
 
 
 def check_repro(C, drv, gp, n, fitness, selected):
@@ -429,7 +545,16 @@ def check(ctx):
             n = C.rng.randint(6, 12)
             npairs = C.rng.choice([2, 2, 3])
             sel = C.rng.sample(range(n), 2 * npairs)
-            check_crossover(C, n, sel, C.rng.randrange(1 << 30))
+            check_crossover(C, n, sel, C.rng.randrange(1 << 30), drv=drv, deep=(k % 5 == 4))
+            # … with an individual selected twice, or paired with itself (a tournament may return that)
+            if k % 3 == 0:
+                sel2 = [C.rng.randrange(n) for _ in range(2 * npairs)]
+                if k % 6 == 0:
+                    sel2[1] = sel2[0]
+                check_crossover(C, n, sel2, C.rng.randrange(1 << 30), drv=drv)
+            # whole-population mutation: selected individuals (possibly twice), single-node individuals among them
+            selm = [C.rng.randrange(n) for _ in range(C.rng.randint(2, 5))]
+            check_mutation(C, drv, n, selm, C.rng.randrange(1 << 30), single=[selm[0]] if k % 2 == 0 else ())
         # the library's own tournament inside reproduction, on fitness vectors with exact ties and near ties
         for k in range(80 if ctx['tier'] == 'quick' else 800):
             n = C.rng.randint(4, 10)
@@ -504,8 +629,11 @@ def replay(prop, payload):
                 if any(i['layer'] == 'oracle' for i in C.issues):
                     return True
             return False
+        if payload['how'] == 'mutation':
+            check_mutation(C, drv, payload['n'], payload['selected'], payload['seed'], single=payload.get('single', ()))
+            return any(i['layer'] == 'oracle' for i in C.issues)
         if payload['how'] == 'crossover':
-            check_crossover(C, payload['n'], payload['selected'], payload['seed'])
+            check_crossover(C, payload['n'], payload['selected'], payload['seed'], drv=drv, deep=payload.get('deep', False))
             return any(i['layer'] == 'oracle' for i in C.issues)
         if payload['how'] == 'repro':
             check_repro(C, drv, gp, len(payload['fitness']), payload['fitness'], payload['selected'])
